@@ -36,6 +36,8 @@ class SetInterp(PyInterp):
             if isinstance(a, (set, frozenset)) and isinstance(b, (set, frozenset)):
                 r = a | b if isinstance(n.op, ast.BitOr) else a & b if isinstance(n.op, ast.BitAnd) else a - b
                 return r
+            if isinstance(a, int) and isinstance(b, int) and not isinstance(a, bool) and not isinstance(b, bool) and isinstance(n.op, ast.Sub):
+                return a - b
             raise Crash(f"`{src(n)}` with operands {a!r}, {b!r}")
         if isinstance(n, ast.Compare) and len(n.ops) == 1 and isinstance(n.ops[0], (ast.In, ast.NotIn)):
             a, b = self.eval(n.left, env), self.eval(n.comparators[0], env)
